@@ -11,6 +11,8 @@ Follows conn.go:
   * `Event.lone`    ↔ branch `c.concurrency() == 1`: `io.ErrNoProgress`, read lock released, the
                       conn stays open and the foreign frame stays where it is.
   * `Event.peekErr` ↔ `peekResponseSizeAndID` failed (deadline, EOF, closed): `c.conn.Close()`.
+  * `Event.close`   ↔ `(*Conn).Close` called by the application at any moment (every pending and later read or
+                      write on the socket fails; what is already in the read buffer can still be taken).
   * `Event.finish`  ↔ the end of `(*Conn).do` (the `read` closure ran, `lock.Unlock()`), of
                       `ApiVersions` (deferred unlock) and `(*Batch).close` (the Batch held the lock since
                       `ReadBatchWith`): body parsed / Kafka error code / any other error (conn closed).
@@ -62,6 +64,7 @@ inductive Event
   | lone (seq : Nat) (seen : Nat)
   | peekErr (seq : Nat)
   | finish (seq : Nat) (o : Body)
+  | close                                   -- the application calls (*Conn).Close while calls are in flight
   deriving DecidableEq, Repr
 
 structure State where
@@ -127,6 +130,7 @@ def step (s : State) : Event → Option State
         | .io => some { s with rlock := none, calls := setStatus s seq (.done .err), closed := true }
       else none
     | _, _ => none
+  | .close => some { s with closed := true }
 
 def runFrom : State → List Event → Option State
   | s, [] => some s
